@@ -202,6 +202,7 @@ pub fn realise(c: &Case, table: &[(u8, u8)], canonical: bool) -> ModelSpec {
         seed: c.seed,
         section_gap: if canonical { 0 } else { c.section_gap },
         has_flags: c.has_flags,
+        skew_unused_copies: 0,
     }
 }
 
@@ -466,6 +467,7 @@ pub fn sweep_spec(variant: u8, v6: bool, canonical: bool) -> ModelSpec {
         seed: 7,
         section_gap: 0,
         has_flags: (false, false),
+        skew_unused_copies: 0,
     }
 }
 
